@@ -187,6 +187,15 @@ def engine : Engine DState where
     -- the harness announces that the peer's wire ids are offset by a constant (ids beyond 2^53); the model
     -- and all records use the logical ids
     | ["idbase", _] => (d, { model := "ok" })
+    -- the harness's watchdog: the step `rest` was applied but the implementation never became quiescent
+    -- again (a goroutine of the SDK is blocked on something that no step of the scripted environment
+    -- releases).  In the model every label is one atomic step, so this is never the model's behaviour.
+    | "hang" :: rest =>
+      let late := (impl.splitOn "cancelled-callers-still-blocked=").length > 1
+      let pfx := if late then "C04+C05: a caller whose context was cancelled has not returned and the step ("
+                 else "C05: the step ("
+      (d, { model := "quiescent", violated := some (pfx ++ " ".intercalate rest ++
+        ") never completed: the implementation did not become quiescent within the watchdog's real-time limit (in the model every label is one atomic step and a cancelled caller returns after its own Retire): " ++ impl) })
     | ["end"] =>
       let model := match d.st with
         | none => "model-disabled"
